@@ -24,7 +24,9 @@ ALL_CFG = dict(Modes=("WebRtc", "Srtp", "Rtp"), Compats=("Standard", "LegacySip"
 
 
 def scen(label, maxsec, menus, sim=None, depth=None, **kw):
-    d = dict(label=label, MinSec=1, MaxSec=maxsec, Sims=(False,), Port0s=(False,), Extras=("none",), Kinds=ALL_KINDS, MidSchemes=("numeric", "named", "absent"),
+    d = dict(label=label, MinSec=1, MaxSec=maxsec, Sims=(False,), Port0s=(False,), Extras=("none",), Kinds=ALL_KINDS,
+             SNames=("dash",), OUsers=("dash",), SessOpts=("none",), FlagAttrs=(False,), Trickies=(False,), Blanks=(False,),
+             Eols=("crlf",), MidSchemes=("numeric", "named", "absent"),
              BundleModes=("none", "all"), Setups=("actpass", "none"), Dirs=("sendrecv", "sendonly"),
              Muxes=(True, False), menus=menus, sim=sim, **ALL_CFG)
     d.update(kw)
@@ -36,7 +38,10 @@ SMALL = ("AudioPtsSmall", "VideoPtsSmall", "ExtSmall")
 ALL_DIRS = ("sendrecv", "sendonly", "recvonly", "inactive")
 ALL_SETUPS = ("actpass", "active", "passive", "none")
 
-NEW_DIMS = dict(Sims=(True, False), Port0s=(True, False), Extras=("none", "sip", "browser"))
+# the "line form" of the peer's text (what the parser sees for the same abstract description)
+FORMS = dict(SNames=("dash", "space", "empty", "words"), OUsers=("dash", "name"), SessOpts=("none", "c", "bi", "all"),
+             FlagAttrs=(True, False), Trickies=(True, False), Blanks=(True, False), Eols=("crlf", "lf"))
+NEW_DIMS = dict(Sims=(True, False), Port0s=(True, False), Extras=("none", "sip", "browser"), **FORMS)
 TIERS = {
     "quick": [
         # exhaustive: every single-section offer of the small menus x mid scheme x bundle, for every mode,
@@ -44,6 +49,11 @@ TIERS = {
         scen("exhaustive/1-section", 1, SMALL, Compats=("Standard",), Pres=("none",), Negs=("first", "subsequent")),
         # pseudo-random samples of the large space (full menus incl. RTX-heavy video, simulcast/rid, rejected sections,
         # extra peer lines; every configuration dimension; first/subsequent/grow/swapped negotiation)
+        # exhaustive over the line forms (4 x 2 x 4 x 2^4 = 512) of one plain section of each kind, in every mode:
+        # the parsed-side round trip with every session-level line form
+        scen("exhaustive/line-forms", 1, ("AudioPtsOne", "VideoPtsOne", "ExtNone"), Compats=("Standard",), Pres=("none",),
+             Caps=("default",), Negs=("first",), MidSchemes=("numeric",), BundleModes=("none",), Dirs=("sendrecv",),
+             Muxes=(True,), **FORMS),
         scen("random/1-3-sections", 3, FULL, sim=5000, Dirs=ALL_DIRS, Setups=ALL_SETUPS,
              BundleModes=("none", "all", "first2"), **NEW_DIMS),
         scen("random/4-6-sections", 6, FULL, sim=1500, MinSec=4, Dirs=ALL_DIRS, Setups=ALL_SETUPS,
@@ -54,7 +64,7 @@ TIERS = {
              Compats=("Standard",), Muxes=(True,), Negs=("first", "subsequent")),
         scen("exhaustive/1-section/compat", 1, SMALL, Pres=("none", "audio", "dc"), Negs=("first", "subsequent")),
         scen("exhaustive/1-section/variants", 1, SMALL, Compats=("Standard",), Pres=("none",), Caps=("default", "custom"),
-             Negs=("first", "swapped"), **NEW_DIMS),
+             Negs=("first", "swapped"), Sims=(True, False), Port0s=(True, False), Extras=("none", "sip", "browser")),
         scen("exhaustive/2-sections", 2, SMALL, Compats=("Standard",), Pres=("none",), Negs=("first", "subsequent", "grow")),
         scen("random/1-6-sections", 6, FULL, sim=300000, Dirs=ALL_DIRS, Setups=ALL_SETUPS,
              BundleModes=("none", "all", "first2"), **NEW_DIMS),
@@ -83,6 +93,13 @@ CONSTANTS
   Sims = {S(sc['Sims'])}
   Port0s = {S(sc['Port0s'])}
   Extras = {S(sc['Extras'])}
+  SNames = {S(sc['SNames'])}
+  OUsers = {S(sc['OUsers'])}
+  SessOpts = {S(sc['SessOpts'])}
+  FlagAttrs = {S(sc['FlagAttrs'])}
+  Trickies = {S(sc['Trickies'])}
+  Blanks = {S(sc['Blanks'])}
+  Eols = {S(sc['Eols'])}
   Kinds = {S(sc['Kinds'])}
   MidSchemes = {S(sc['MidSchemes'])}
   BundleModes = {S(sc['BundleModes'])}
@@ -254,7 +271,7 @@ def classify(ck, records, verdicts, label, stats):
             kinds = {}
             for rule, kind in v["kinds"]:
                 kinds.setdefault(rule, set()).add(kind)
-            case = {"offer": r["offer"], "cfg": r["cfg"], "prev": r.get("prev"), "extras": r.get("extras", "none"), "scenario": label}
+            case = {"offer": r["offer"], "cfg": r["cfg"], "prev": r.get("prev"), "extras": r.get("extras", "none"), "form": r.get("form"), "scenario": label}
             for rule in v["failed"]:
                 for kind in sorted(kinds.get(rule, {"-"})):
                     rec = {"rule": rule, "kind": kind, "case": case, "answer": r["answer"],
@@ -334,7 +351,7 @@ def attach_texts(ck):
     todo = todo[:200]
     op = os.path.join(ck.dir, "examples_offers.ndjson")
     vlib.write_ndjson(op, [{"offer": r["case"]["offer"], "cfg": r["case"]["cfg"], "prev": r["case"].get("prev") or r["case"]["offer"],
-                            "extras": r["case"].get("extras", "none")} for r in todo])
+                            "extras": r["case"].get("extras", "none"), "form": r["case"].get("form")} for r in todo])
     out = os.path.join(ck.dir, "examples_records.ndjson")
     p = vlib.run_bin("answer", [op, out, "2"], timeout=600, env={"VERIF_KEEP_SDP": "1"})
     if p.returncode == 0:
@@ -369,7 +386,7 @@ def replay(path):
     case = rec["record"]["case"]
     op = os.path.join(ck.dir, "replay_offer.ndjson")
     vlib.write_ndjson(op, [{"offer": case["offer"], "cfg": case["cfg"], "prev": case.get("prev") or case["offer"],
-                            "extras": case.get("extras", "none")}])
+                            "extras": case.get("extras", "none"), "form": case.get("form")}])
     records = record(ck, op, "replay", 2)
     verdicts = validate(ck, records, "replay", "replay")
     stats = dict(records=0, accepted=0, not_accepted=0, invalid=0, roundtrip_reordered=0)
